@@ -114,6 +114,7 @@ for Atomic<'a, ItemType, BUFFER_SIZE, MAX_STREAMS> {
         match self.channel.publish_movable(item) {
             (Some(len_after), _none_item) => {
                 let len_after = len_after.get();
+                #[cfg(feature = "verif")] crate::verif::note(crate::verif::UNI_AFTER_PUBLISH_BEFORE_WAKE, len_after as u64);
                 #[cfg(feature = "verif")] crate::verif::point(crate::verif::UNI_AFTER_PUBLISH_BEFORE_WAKE);
                 if len_after <= MAX_STREAMS as u32 {
                     self.streams_manager.wake_stream(len_after-1)
@@ -135,6 +136,7 @@ for Atomic<'a, ItemType, BUFFER_SIZE, MAX_STREAMS> {
     #[inline(always)]
     fn send_with<F: FnOnce(&mut ItemType)>(&self, setter: F) -> keen_retry::RetryConsumerResult<(), F, ()> {
         let setter_option = self.channel.publish(setter, || false, |len_after| {
+            #[cfg(feature = "verif")] crate::verif::note(crate::verif::UNI_AFTER_PUBLISH_BEFORE_WAKE, len_after as u64);
             #[cfg(feature = "verif")] crate::verif::point(crate::verif::UNI_AFTER_PUBLISH_BEFORE_WAKE);
             if len_after <= MAX_STREAMS as u32 {
                 self.streams_manager.wake_stream(len_after - 1)
@@ -161,6 +163,7 @@ for Atomic<'a, ItemType, BUFFER_SIZE, MAX_STREAMS> {
         if let Some((slot, slot_id, len_before)) = self.channel.leak_slot_internal(|| false) {
             setter(slot).await;
             self.channel.publish_leaked_internal(slot_id);
+            #[cfg(feature = "verif")] crate::verif::note(crate::verif::UNI_AFTER_PUBLISH_BEFORE_WAKE, len_before as u64 + 1);
             #[cfg(feature = "verif")] crate::verif::point(crate::verif::UNI_AFTER_PUBLISH_BEFORE_WAKE);
             if len_before < MAX_STREAMS as u32 {
                 self.streams_manager.wake_stream(len_before);
@@ -184,6 +187,7 @@ for Atomic<'a, ItemType, BUFFER_SIZE, MAX_STREAMS> {
             .map(|len_after| {
                 // wake the streams, if needed
                 let len_after = len_after.get();
+                #[cfg(feature = "verif")] crate::verif::note(crate::verif::UNI_AFTER_PUBLISH_BEFORE_WAKE, len_after as u64);
                 #[cfg(feature = "verif")] crate::verif::point(crate::verif::UNI_AFTER_PUBLISH_BEFORE_WAKE);
                 if len_after <= MAX_STREAMS as u32 {
                     self.streams_manager.wake_stream(len_after % MAX_STREAMS as u32);
